@@ -24,6 +24,10 @@ func init() {
 		NotDecided: "Exactness of ipaddr.Summarize (third-party arithmetic), label-selector semantics, that cidrContainsCIDR is a correct containment test as values.",
 		Run:        runC08,
 		Mutants: []Mutant{
+			{Name: "duplicate-advertisement-ignores-nodes", File: "internal/config/config.go",
+				Old: "\t\tif !reflect.DeepEqual(adv.Nodes, toCheck.Nodes) {\n\t\t\tcontinue\n\t\t}\n", New: "", Expect: "ADV-DEDUP"},
+			{Name: "containment-direction-flipped", File: "internal/config/config.go",
+				Old: "\tif ol < il && outer.Contains(inner.IP) {", New: "\tif ol > il && outer.Contains(inner.IP) {", Expect: "CIDR-CONTAINS"},
 			{Name: "append-before-overlap-loop", File: "internal/config/config.go",
 				Old: "\t\t\tfor _, m := range allCIDRs {\n\t\t\t\tif cidrsOverlap(cidr, m) {", New: "\t\t\tfor _, m := range allCIDRs[:len(allCIDRs)/2] {\n\t\t\t\tif cidrsOverlap(cidr, m) {", Expect: "VALIDATED-ACCUMULATOR"},
 			{Name: "skip-adv-validation-at-named-site", File: "internal/config/config.go",
@@ -53,6 +57,8 @@ func init() {
 }
 
 func runC08(p *chk.Prog, r *chk.Report) {
+	c08Dedup(p, r)
+	cidrContainmentRule(p, r)
 	c08Parse(p, r)
 	c08Accumulator(p, r)
 	c08Attach(p, r)
@@ -172,7 +178,9 @@ func c08Accumulator(p *chk.Prog, r *chk.Report) {
 		return
 	}
 	cidr := rangeVal(f, cidrLoop)
-	apps := g.Find(func(n ast.Node) bool { return chk.InBody(cidrLoop, n) && f.IsAssignPat("ALL", "append(ALL, C)", chk.H("C", cidr))(n) })
+	apps := g.Find(func(n ast.Node) bool {
+		return chk.InBody(cidrLoop, n) && f.IsAssignPat("ALL", "append(ALL, C)", chk.H("C", cidr))(n)
+	})
 	if len(apps) != 1 {
 		x.Fail("poolsFor:accumulator-append", cidrLoop.Pos(), "expected one allCIDRs = append(allCIDRs, cidr)")
 		return
@@ -431,7 +439,7 @@ func c08AdvValid(p *chk.Prog, r *chk.Report) {
 		var eq types.Object
 		for _, s := range g.Find(ac.IsAssignPat("E", "true")) {
 			if rs, ok := ac.LoopOf(s.Node).(*ast.RangeStmt); ok && ac.MatchWith("A.Peers", rs.X, chk.H("A", na)) != nil &&
-				g.Dominated(s, g.GPat(true, "slices.Contains(B.Peers, P)", chk.H("B", ad), chk.H("P", rangeVal(ac, rs)))) {
+				g.Dominated(s, memberGuard(g, ac, func(e ast.Expr) bool { return ac.MatchWith("B.Peers", e, chk.H("B", ad)) != nil }, rangeVal(ac, rs))) {
 				eq = ac.ObjOf(s.Node.(*ast.AssignStmt).Lhs[0])
 			}
 		}
@@ -530,4 +538,43 @@ func c08For(p *chk.Prog, r *chk.Report) {
 			x.Check("poolsFor:accept:advertisements-attached", rt.Pos(), ok, "", "pools are returned although attaching the advertisements failed")
 		}
 	}
+}
+
+// c08Dedup: an L2 advertisement is dropped as a duplicate of one already attached to the pool only if it is equal in
+// everything that matters: all-interfaces flag, the node set (equality, not inclusion) and the interface set.
+func c08Dedup(p *chk.Prog, r *chk.Report) {
+	x := r.Rule("ADV-DEDUP", "B path", "config.containsAdvertisement returns true only for an attached advertisement with the same AllInterfaces, an equal node set (reflect.DeepEqual / maps.Equal of the two Nodes maps) and an equal interface set", 3)
+	f := need(x, p, cfgPkg, "", "containsAdvertisement")
+	if f == nil {
+		return
+	}
+	g := f.Graph()
+	t := isParamIdx(f, 1)
+	el := elementOf(f, isParamIdx(f, 0))
+	sameFlag := g.GPat(false, "A.AllInterfaces != T.AllInterfaces", chk.H("A", el), chk.H("T", t))
+	sameNodes := chk.GOr(
+		g.GPat(true, "reflect.DeepEqual(A.Nodes, T.Nodes)", chk.H("A", el), chk.H("T", t)), g.GPat(true, "reflect.DeepEqual(T.Nodes, A.Nodes)", chk.H("A", el), chk.H("T", t)),
+		g.GPat(true, "maps.Equal(A.Nodes, T.Nodes)", chk.H("A", el), chk.H("T", t)), g.GPat(true, "maps.Equal(T.Nodes, A.Nodes)", chk.H("A", el), chk.H("T", t)))
+	sameIfs := chk.GOr(
+		g.GPat(true, "sets.New(A.Interfaces...).Equal(sets.New(T.Interfaces...))", chk.H("A", el), chk.H("T", t)),
+		g.GPat(true, "sets.New(T.Interfaces...).Equal(sets.New(A.Interfaces...))", chk.H("A", el), chk.H("T", t)))
+	n := 0
+	for _, rt := range g.Returns() {
+		rr := retResults(rt)
+		if len(rr) != 1 || f.IsConstBool(rr[0], false) {
+			continue
+		}
+		n++
+		for _, c := range []struct {
+			name string
+			gd   chk.Guard
+		}{{"all-interfaces-flag", sameFlag}, {"node-set-equal", sameNodes}, {"interface-set-equal", sameIfs}} {
+			ok := g.Dominated(rt, c.gd)
+			if !f.IsConstBool(rr[0], true) {
+				ok = g.DominatedAssuming(rt, rr[0], true, c.gd)
+			}
+			x.Check("containsAdvertisement:true-needs:"+c.name, rt.Pos(), ok, "", "an advertisement can be treated as already attached although its "+c.name+" differs (it is then silently not attached: the pool is announced from fewer nodes / interfaces than selected)")
+		}
+	}
+	x.Check("containsAdvertisement:has-true", f.Pos(), n > 0, "", "containsAdvertisement never reports a duplicate")
 }
